@@ -380,25 +380,32 @@ func (w *Worker) runCase(c *Case, f func(c *Case)) {
 	if to == 0 {
 		to = 60 * time.Second
 	}
-	t := time.NewTimer(to)
-	defer t.Stop()
-	select {
-	case <-done:
-		return
-	case <-t.C:
+	// The watchdog looks at the case every `to`. State-based verdict: only a
+	// dump in which every goroutine is parked (twice in a row) is a deadlock.
+	// A case that is merely slow (loaded machine) is given up to eight
+	// periods before the run is called inconclusive.
+	var d2 string
+	deadlocked := false
+	for period := 0; period < 8 && !deadlocked; period++ {
+		t := time.NewTimer(to)
+		select {
+		case <-done:
+			t.Stop()
+			return
+		case <-t.C:
+		}
+		d1, b1 := AllBlocked()
+		time.Sleep(2 * time.Second)
+		select {
+		case <-done:
+			return
+		default:
+		}
+		var b2 bool
+		d2, b2 = AllBlocked()
+		deadlocked = b1 && b2 && stripAddrs(d1) == stripAddrs(d2)
 	}
-	// The case did not finish. State-based verdict: only a dump in which every
-	// goroutine is parked (twice in a row) is a deadlock; anything else is
-	// "slow", hence inconclusive.
-	d1, b1 := AllBlocked()
-	time.Sleep(2 * time.Second)
-	select {
-	case <-done:
-		return
-	default:
-	}
-	d2, b2 := AllBlocked()
-	if b1 && b2 && stripAddrs(d1) == stripAddrs(d2) {
+	if deadlocked {
 		c.Violation("hang:"+hangSite(d2), "case did not finish and every goroutine is parked (deadlock)\n%s", d2)
 	} else {
 		c.mu.Lock()
@@ -411,7 +418,7 @@ func (w *Worker) runCase(c *Case, f func(c *Case)) {
 		if len(act) > 1500 {
 			act = act[:1500]
 		}
-		w.Inconclusive(fmt.Sprintf("case %s#%d exceeded %v without a deadlocked dump: %s; running goroutines: %s", c.Group, c.Index, to, desc, act))
+		w.Inconclusive(fmt.Sprintf("case %s#%d exceeded %v without a deadlocked dump: %s; running goroutines: %s", c.Group, c.Index, 8*to, desc, act))
 	}
 	// The worker cannot continue with leaked goroutines in an unknown state.
 	w.finish(false)
